@@ -2,8 +2,8 @@ package checks
 
 import (
 	"errors"
-	"os"
 	"fmt"
+	"os"
 	"regexp"
 	"strconv"
 	"strings"
@@ -268,7 +268,9 @@ chk() { # id flag expected pattern extras...
 			}
 		}
 		script.WriteString("echo END\n")
-		if os.Getenv("VERIF_KEEP") != "" && len(batch) > 100 { os.WriteFile("/tmp/c17batch.sh", []byte(script.String()), 0o644) }
+		if os.Getenv("VERIF_KEEP") != "" && len(batch) > 100 {
+			os.WriteFile("/tmp/c17batch.sh", []byte(script.String()), 0o644)
+		}
 		t0 := time.Now()
 		out, _, err := oracle.ShellFile("bash", script.String(), "")
 		c.Count("ms_bash", int(time.Since(t0).Milliseconds()))
@@ -474,6 +476,7 @@ func c17Class(p string, mode pattern.Mode, all []string, sh, bash []bool) string
 		rest := p[i+1:]
 		rest = strings.TrimPrefix(strings.TrimPrefix(rest, "!"), "^")
 		rest = strings.ReplaceAll(strings.ReplaceAll(rest, `\\`, ""), `\]`, "")
+		rest = c17PosixClassRx.ReplaceAllString(rest, "") // the "]" of [:alpha:] closes nothing
 		if strings.Contains(strings.TrimPrefix(rest, "]"), "]") {
 			continue
 		}
@@ -487,11 +490,33 @@ func c17Class(p string, mode pattern.Mode, all []string, sh, bash []bool) string
 			return "unterminated-bracket-with-trailing-range"
 		}
 	}
+	if i := strings.Index(p, "-[:"); i > 0 && strings.Contains(p[:i], "[") {
+		// "[x-[:alpha:]": bash reads a range ending in "[" followed by the
+		// ordinary characters ":alpha:" and the closing "]"; sh takes
+		// "[:alpha:]" for a class, finds the bracket unterminated and matches
+		// the text literally
+		tail := p[i+3:]
+		if j := strings.Index(tail, ":]"); j >= 0 && !strings.Contains(tail[j+2:], "]") && !strings.Contains(tail[:j], "]") {
+			onlyBashMatches := true
+			for k := range all {
+				// sh's literal reading may still hold a wildcard before the
+				// "-" ("[*-[:alpha:]"), so it matches texts ending in the
+				// literal tail; anything else it alone matches is not this family
+				if sh[k] && !bash[k] && !strings.HasSuffix(all[k], p[i:]) {
+					onlyBashMatches = false
+				}
+			}
+			if onlyBashMatches {
+				return "range-ending-in-bracket-before-class-like-text"
+			}
+		}
+	}
 	if strings.Contains(p, "[:") {
 		// POSIX classes are ASCII-only here but locale-aware in bash
 		onlyNonASCII := true
 		for k := range all {
-			if sh[k] != bash[k] && !(bash[k] && strings.ContainsFunc(all[k], func(r rune) bool { return r > 127 })) {
+			// (bash[k] && !sh[k] for [[:alpha:]], the reverse for [^[:alpha:]])
+			if sh[k] != bash[k] && !strings.ContainsFunc(all[k], func(r rune) bool { return r > 127 }) {
 				onlyNonASCII = false
 			}
 		}
@@ -505,6 +530,8 @@ func c17Class(p string, mode pattern.Mode, all []string, sh, bash []bool) string
 // c17BracketClose returns the index of the "]" closing the bracket expression
 // that opens at rs[open] under the POSIX rule (a "]" directly after "[", "[!"
 // or "[^" is an ordinary member), or -1 when there is none.
+var c17PosixClassRx = regexp.MustCompile(`\[:[a-z]*:\]`)
+
 func c17BracketClose(rs []rune, open int) int {
 	j := open + 1
 	if j < len(rs) && (rs[j] == '!' || rs[j] == '^') {
